@@ -283,7 +283,7 @@ def run_uploads(ctx):
                                 ctx.violation("uploads without a convergence secret did not get distinct random keys", case, "random-key-reused")
                     # the read pattern the key-hashing loop saw (only the CHK path hashes)
                     chunks = [r for r in sf.reads] if size > 55 else []
-                    lines.append("cap %s 00 %d %d %d %s %s" % (hx(secret) if secret else "-", k, n, max_seg, hx(data),
+                    lines.append("capon %d %s 00 %d %d %d %s %s" % (n, hx(secret) if secret else "-", k, n, max_seg, hx(data),
                                                              ",".join(hx(ch) for ch in chunks) or "."))
                     impl.append(out)
                     metas.append(case)
@@ -367,8 +367,8 @@ def run_noservers(ctx, corpus=False):
                                                   "lit-cap-size-%d" % size)
                                 if called:
                                     ctx.violation("a literal upload contacted a storage server", case, "lit-server-call")
-                                lines.append("cap %s 00 %d %d %d %s ." % ("N" if conv is None else (hx(conv) if conv else "-"),
-                                                                           k, n, max_seg, hx(data)))
+                                lines.append("capon 0 %s 00 %d %d %d %s ." % ("N" if conv is None else (hx(conv) if conv else "-"),
+                                                                                k, n, max_seg, hx(data)))
                                 impl.append("LIT;%s;0" % hx(getattr(cap, "data", b"")))
                                 metas.append(case)
                             else:
@@ -379,6 +379,13 @@ def run_noservers(ctx, corpus=False):
                                 elif not isinstance(err, (NoServersError, UploadUnhappinessError)):
                                     ctx.violation("upload of > 55 bytes without servers failed with an unexpected error", case,
                                                   "chk-without-servers-error-" + type(err).__name__, repr(err)[:200])
+                                if name == "Data":
+                                    # the model with the server list as an input: NoServersError on the CHK branch only
+                                    lines.append("capon 0 %s 00 %d %d %d %s %s" % ("N" if conv is None else (hx(conv) if conv else "-"),
+                                                                                   k, n, max_seg, hx(data), hx(data)))
+                                    impl.append("NoServersError" if isinstance(err, NoServersError) else
+                                                ("uploaded" if err is None else type(err).__name__))
+                                    metas.append(case)
                         try:
                             os.unlink(fn)
                         except OSError:
@@ -628,6 +635,30 @@ def run_segsize_corpus(ctx):
                 seen.append((ms, seg, cap))
                 ctx.case(("SegC", "upload", ms))
                 ctx.count("corpus:segsize")
+            # the empty byte string is a valid convergence secret (seeded C05-e): uploading the same bytes twice with
+            # convergence=b"" gives the same cap, whose key is the documented hash with an empty secret; from every stock source
+            import io as _io
+            data2 = bytes((i * 13 + 1) % 256 for i in range(150))
+            caps = []
+            for name, mk in (("Data", lambda: upload.Data(data2, convergence=b"")),
+                             ("Data-again", lambda: upload.Data(data2, convergence=b"")),
+                             ("FileHandle", lambda: upload.FileHandle(_io.BytesIO(data2), convergence=b""))):
+                case = {"kind": "empty-secret-corpus", "source": name, "size": len(data2), "k": k, "n": n}
+                try:
+                    cap = uri.from_string(rt.wait(c.upload(mk())).get_uri())
+                except Exception as ex:
+                    ctx.violation("corpus upload with an empty convergence secret failed", case,
+                                  "empty-secret-upload-failed-" + type(ex).__name__, repr(ex)[:200])
+                    continue
+                caps.append(cap.to_string())
+                if cap.key != ref_convergent_key(k, n, 100, b"", data2):
+                    ctx.violation("with convergence=b\"\" the cap's key is not the convergent hash for the empty secret", case,
+                                  "convergent-key-differs-from-spec:empty-secret")
+                ctx.case(("EmptySecret", name))
+                ctx.count("corpus:empty-secret")
+            if len(set(caps)) > 1:
+                ctx.violation("re-uploading the same bytes with convergence=b\"\" gives a different cap", {"kind": "empty-secret-corpus"},
+                              "cap-not-deterministic-empty-secret")
         finally:
             g.close()
     model = ctx.model(lines)
